@@ -124,7 +124,7 @@ PROPS = {
                         "ISA semantics table in analysis/isa.py (x86-64: mov/add/sub/imul/idiv/cqo/cmp/jcc/push/pop; AArch64; RV64)"],
     },
     "C04": {
-        "rules": [shape.rule_shape, shrinking.rule_chirality, shrinking.rule_samesrc, shrinking.rule_declsrc, shrinking.rule_idcmp, shrinking.rule_cutvar, enums.rule_enum_maps({"core2axcut"}),
+        "rules": [shape.rule_shape, shrinking.rule_chirality, shrinking.rule_samesrc, shrinking.rule_declsrc, shrinking.rule_idcmp, shrinking.rule_cutvar, shrinking.rule_cutkind, enums.rule_enum_maps({"core2axcut"}),
                   fresh.rule_fresh, fresh.rule_maxid, traversal.rule_trav(["core2axcut::shrinking::Shrinking", "scc_core_lang::traits::substitution::SubstVar",
                                                                           "scc_core_lang::traits::typed_free_vars::TypedFreeVars"]),
                   inputs.rule_useall_for(["core2axcut"], 35)],
